@@ -20,12 +20,12 @@ ASSUMPTIONS = ['a multiplied anchor has exactly one branch and carries no ring m
 NODE_ONLY = {'node_mult', 'node_mult_then_sym', 'node_mult_1', 'node_mult_first', 'node_mult_in_branch',
              'node_mult_annot'}
 
-FUZZ = dict(campaigns=8, runs=2500)
+FUZZ = dict(campaigns=8, runs=6000)
 
 
 def budget(tier):
     if tier == 'thorough':
-        return dict(examples=5000, shards=16, procs=16)
+        return dict(examples=12000, shards=16, procs=16)
     return dict(examples=2000, shards=4, procs=4)
 
 
